@@ -152,9 +152,74 @@ def upload(n, crc, sized, how, fault=None):
         sx.reach("returned-after-fault")
 
 
+def small_blocks(n, blksize, crc):
+    """BlockUploadStream.blksize is a public class attribute (the sub-block size the client asks for): with a smaller
+    value the transfer has more sub-blocks, everything else holds as before"""
+    BUS = sx.mod("canopen.sdo.client").BlockUploadStream
+    old = BUS.blksize
+    BUS.blksize = blksize
+    try:
+        upload(n, crc, 1, "buffered")
+    finally:
+        BUS.blksize = old
+    sx.reach("small-blocks")
+
+
+def second_upload(n1, n2, how):
+    """a block upload is abandoned (the stream is closed after one read) or fails, segments of it are still queued;
+    the next block upload on the same client is undisturbed and returns exactly its value"""
+    E = _exc()
+    v1 = sx.fresh_bytes("v1", n1)
+    v2 = sx.fresh_bytes("v2", n2)
+    srv = BlockUploadServer(sx.items(v1), crc=True, size_indicated=True)
+    srv.check = False
+    rig = FaultRig(srv, None)
+    srv.expect_mux = None
+    tag = "C13/second-upload/%s" % how
+    try:
+        fp = rig.client.open(0x2000, 0, "rb", buffering=0, block_transfer=True)
+        fp.read(7)
+        if how == "abandon":
+            fp.close()
+        else:
+            # a stray frame makes the first transfer fail
+            rig.client.on_response(rig.client.tx_cobid, sx.mkbytes([0x7F, 0, 0, 0, 0, 0, 0, 0]), 0.0)
+            try:
+                while fp.read(7):
+                    pass
+            except (E.SdoCommunicationError, E.SdoAbortedError):
+                pass
+            fp.close()
+    except (E.SdoCommunicationError, E.SdoAbortedError) as e:
+        sx.observe("exc1", C.exc_name(e))
+    # a fresh, conformant server state for the second transfer
+    srv2 = BlockUploadServer(sx.items(v2), crc=True, size_indicated=True)
+    rig.server = srv2
+    try:
+        fp = rig.client.open(0x2001, 0, "rb", buffering=1024, block_transfer=True)
+        try:
+            got = fp.read()
+        finally:
+            fp.close()
+    except (E.SdoCommunicationError, E.SdoAbortedError) as e:
+        sx.observe("exc2", C.exc_name(e))
+        sx.fail("the block upload after an abandoned one failed (%s)" % C.exc_name(e), tag + "/failed")
+        return
+    sx.prove(len(sx.items(got)) == n2 and sx.eq_bytes(got, v2) is not False, "second upload returned another length",
+             tag + "/length")
+    if len(sx.items(got)) == n2:
+        sx.prove(sx.eq_bytes(got, v2), "second upload returned other data", tag + "/bytes")
+    sx.reach("second-upload")
+
+
 def jobs(tier):
     out = []
     q = tier == "quick"
+    for n, blk in ((225, 32), (50, 3), (100, 1)) if q else ((225, 32), (50, 3), (100, 1), (448, 64), (897, 126), (30, 2)):
+        for crc in (1, 0):
+            out.append(dict(func="small_blocks", params=dict(n=n, blksize=blk, crc=crc), weight=n))
+    for how in ("abandon", "fail"):
+        out.append(dict(func="second_upload", params=dict(n1=50, n2=30, how=how), weight=80))
     lens = [1, 6, 7, 8, 14, 15, 21, 22, 50] if q else list(range(1, 65)) + [888, 889, 890, 896, 1000, 1778, 1779]
     for n in lens:
         for crc in (1, 0):
@@ -229,7 +294,7 @@ META = dict(
                     "bit flips in values longer than 21 bytes (unsat proofs time out)", "loss of client->server frames"],
     assumptions=["the server restarts sequence numbers at 1 after every acknowledge, as CiA 301 prescribes"],
     stubs=["struct", "binascii.crc_hqx (z3 model)", "queue", "time", "io model (BufferedWriter/BufferedReader after CPython bufferedio.c, views into the recycled buffer)", "logging"],
-    required_reach=["clean", "failed-visibly", "returned-after-fault"],
+    required_reach=["clean", "failed-visibly", "returned-after-fault", "small-blocks", "second-upload"],
     limits=dict(quick=dict(max_decisions=50000), thorough=dict(max_decisions=200000)),
     validate_every=dict(quick=1, thorough=1),
     max_validate=dict(quick=3, thorough=3),
